@@ -65,6 +65,9 @@ VARIANTS = {
     "eio": (None, ["--release", "--features", "eio"], "eio", "release"),
     "eio-async": (None, ["--release", "--features", "eio-async"], "eioa", "release"),
     "eio-both": (None, ["--release", "--features", "eio,eio-async"], "eiob", "release"),
+    "eio-both-nostd": (None, ["--release", "--no-default-features", "--features", "eio,eio-async"], "eiobn", "release"),
+    "eio-nostd": (None, ["--release", "--no-default-features", "--features", "eio"], "eion", "release"),
+    "eio-async-nostd": (None, ["--release", "--no-default-features", "--features", "eio-async"], "eioan", "release"),
     "nostd": (None, ["--release", "--no-default-features"], "nostd", "release"),
     "alloc": (None, ["--release", "--no-default-features", "--features", "cb-alloc"], "alloc", "release"),
     "unstable": ("nightly", ["--release", "--features", "unstable"], "unstable", "release"),
